@@ -579,6 +579,7 @@ type Query struct {
 	Inst   int    // path instance
 	Kind   string // prove | cover
 	Lines  []string
+	Path   *cmdNode
 	Goal   Term
 	Strs   bool
 	Meta   map[string]string
